@@ -123,7 +123,7 @@ class C14System:
         if st.emits < self.max_emits:
             for e in EMITS:
                 ops.append(["emit", [e]])
-        ops += [["flush"], ["teardown"], ["teardown", [False]]]
+        ops += [["flush"], ["teardown"], ["teardown", [False]], ["teardown", ["with-block-ends"]], ["teardown", ["with-block-raises"]]]
         if any(st.kind[n] == "stream" and n != "cfgmem" for n in self.names):
             ops.append(["teardown", ["caller-closed-its-streams"]])
         if self.formatters:
@@ -186,6 +186,14 @@ class C14System:
                       st.stream[n].close()
                   st.dead = True
                   g.teardown()
+              elif name == "teardown" and len(op) > 1 and op[1] in (["with-block-ends"], ["with-block-raises"]):
+                  # the builder is used as a context manager: leaving the block (normally or through an exception raised in
+                  # its body) is the documented way to clean up
+                  if op[1] == ["with-block-ends"]:
+                      g.__exit__(None, None, None)
+                  else:
+                      err = KeyError("body failed")
+                      g.__exit__(KeyError, err, None)
               elif name == "teardown":
                   if len(op) > 1:
                       g.teardown(*op[1])
@@ -292,7 +300,7 @@ class C14System:
 
 
 RULE = ("BFS over histories of add_writer/remove_writer (path-based FileWriters, FileWriter over an open UTF-8 text file and over an open binary file, custom recording writers), "
-        "three emitting calls incl. a non-ASCII comment (at most N emits per history), flush, teardown(), teardown(False) and a teardown after the caller closed its own streams (end of history) on the real GCodeBuilder, for both line endings, plus a configuration where the formatter is replaced (set_formatter) or its line ending re-configured between writes; reference model = ordered duplicate-free "
+        "three emitting calls incl. a non-ASCII comment (at most N emits per history), flush, teardown(), teardown(False), leaving the builder's with-block (normally and through an exception) and a teardown after the caller closed its own streams (end of history) on the real GCodeBuilder, for both line endings, plus a configuration where the formatter is replaced (set_formatter) or its line ending re-configured between writes; reference model = ordered duplicate-free "
         "registry + per-writer byte log + per-path session log (a path-based writer truncates when it re-opens after a disconnect); recorders checked after every call, file contents "
         "after flush and teardown, teardown must disconnect and forget every writer and leave caller-owned streams open; distinct = distinct (registry, per-writer logs, sessions)")
 ASSUMPTIONS = ["not demanded: that teardown pushes a caller-owned buffered file to disk (the harness flushes the object it owns before reading it back)",
